@@ -22,6 +22,9 @@ SPEC = {
 }
 
 
+SIDE = []   # (api, what) reported by API wrappers that also watch a second argument
+
+
 def apis(rng, tree, dialects, schema, d):
     """yield (name, callable returning something comparable to str or None)"""
     import sqlglot
@@ -48,7 +51,29 @@ def apis(rng, tree, dialects, schema, d):
     out.append(("diff(tree, other)", lambda: str(len(diff(tree, sqlglot.parse_one("SELECT a, b + 1 AS c FROM t WHERE x > 1")))))),
     out.append(("replace_tables", lambda: exp.replace_tables(tree, {"t1": "cat.db.t9"}, dialect=d).sql()))
     out.append(("replace_placeholders", lambda: exp.replace_placeholders(tree, 1, x=2).sql()))
-    out.append(("expand", lambda: exp.expand(tree, {"t1": sqlglot.parse_one("SELECT 1 AS k, 2 AS a1")}, dialect=d).sql()))
+    def _expand():
+        # the `sources` trees are arguments too: they must come back untouched (incl. the parent link of their roots)
+        srcs = {"t1": sqlglot.parse_one("SELECT 1 AS k, 2 AS a1"), "t2": sqlglot.parse_one("SELECT 1 AS k, 2 AS a2 FROM t1")}
+        before = {k: canon.fingerprint(v) for k, v in srcs.items()}
+        res = exp.expand(tree, srcs, dialect=d).sql()
+        for k, v in srcs.items():
+            if canon.fingerprint(v) != before[k]:
+                SIDE.append(("expand:sources", _first_diff(before[k], canon.fingerprint(v))))
+        return res
+
+    out.append(("expand", _expand))
+
+    def _lineage_sources():
+        srcs = {"t1": "SELECT 1 AS k, 2 AS a1"}
+        parsed = {k: sqlglot.parse_one(v) for k, v in srcs.items()}
+        before = {k: canon.fingerprint(v) for k, v in parsed.items()}
+        r = lineage(tree.named_selects[0], tree, schema=schema, sources=parsed, dialect=d).name if isinstance(tree, exp.Query) and tree.named_selects else None
+        for k, v in parsed.items():
+            if canon.fingerprint(v) != before[k]:
+                SIDE.append(("lineage:sources", _first_diff(before[k], canon.fingerprint(v))))
+        return r
+
+    out.append(("lineage(sources=)", _lineage_sources))
     out.append(("find_all/walk", lambda: str(sum(1 for _ in tree.find_all(exp.Column)))))
     out.append(("hash/eq", lambda: str(tree == tree.copy())))
     out.append(("dump", lambda: str(len(tree.dump()))))
@@ -170,6 +195,9 @@ def run_case(ctx, i):
             ctx.count("api_calls")
             if raised:
                 ctx.count("api_raised")
+            while SIDE:
+                api2, what2 = SIDE.pop()
+                ctx.violation(f"argument-mutated:{api2}:{what2}", {"sql": s, "dialect": d or "base", "api": api2, "diff": what2}, case)
             fp1 = canon.fingerprint(tree)
             changed = fp1 != fp0
             if not changed and src_sql is not None:
